@@ -329,10 +329,18 @@ func agentsCmd(out *cq.Out, seed uint64, tier string) {
 
 		tampers := []tamperCase{
 			{name: "honest", class: "honest"},
-			{name: "gossip: first snapshot event digest bit", class: "aud", gossip: func(f, l *protocol.SignedSnapshot) { f.Snapshot.EventDigest = flip(f.Snapshot.EventDigest, rng.Intn(256)) }},
-			{name: "gossip: first snapshot history digest bit", class: "aud+mon", gossip: func(f, l *protocol.SignedSnapshot) { f.Snapshot.HistoryDigest = flip(f.Snapshot.HistoryDigest, rng.Intn(256)) }},
-			{name: "gossip: last snapshot history digest bit", class: "mon", gossip: func(f, l *protocol.SignedSnapshot) { l.Snapshot.HistoryDigest = flip(l.Snapshot.HistoryDigest, rng.Intn(256)) }},
-			{name: "gossip: first snapshot hyper digest bit", class: "unused", gossip: func(f, l *protocol.SignedSnapshot) { f.Snapshot.HyperDigest = flip(f.Snapshot.HyperDigest, rng.Intn(256)) }},
+			{name: "gossip: first snapshot event digest bit", class: "aud", gossip: func(f, l *protocol.SignedSnapshot) {
+				f.Snapshot.EventDigest = flip(f.Snapshot.EventDigest, rng.Intn(256))
+			}},
+			{name: "gossip: first snapshot history digest bit", class: "aud+mon", gossip: func(f, l *protocol.SignedSnapshot) {
+				f.Snapshot.HistoryDigest = flip(f.Snapshot.HistoryDigest, rng.Intn(256))
+			}},
+			{name: "gossip: last snapshot history digest bit", class: "mon", gossip: func(f, l *protocol.SignedSnapshot) {
+				l.Snapshot.HistoryDigest = flip(l.Snapshot.HistoryDigest, rng.Intn(256))
+			}},
+			{name: "gossip: first snapshot hyper digest bit", class: "unused", gossip: func(f, l *protocol.SignedSnapshot) {
+				f.Snapshot.HyperDigest = flip(f.Snapshot.HyperDigest, rng.Intn(256))
+			}},
 			{name: "gossip: first snapshot version + 1", class: "aud+mon", gossip: func(f, l *protocol.SignedSnapshot) { f.Snapshot.Version++ }},
 			{name: "gossip: last snapshot version - 1", class: "mon", gossip: func(f, l *protocol.SignedSnapshot) { l.Snapshot.Version-- }},
 			{name: "store: hyper digest of the current version bit", class: "aud", store: func(st *storeSrv, cur uint64) func() {
